@@ -164,6 +164,20 @@ Section Proofs.
     split; [lia|exact Hnz].
   Qed.
 
+  (* the clause "key and salt of a connection to that same DC": when the server reports its own
+     DC (honest), the saved DC is the DC of the connection the key came from *)
+  Lemma saved_is_connection_dc : forall (h : list (@event K)) (st : @state K) (i : nat) (sv : @sess K),
+    nth_error (snd (run st h)) i = Some (Some sv) ->
+    exists n, nth_error h i = Some (ENotify n) /\ n_h n = HRegular /\
+              s_key sv = save_key n /\ s_salt sv = n_salt n /\
+              (honest n -> s_dc sv = n_conn n).
+  Proof.
+    intros h st i sv H. destruct (saved_in_history _ _ _ _ H) as [n [Hn [H1 [-> _]]]].
+    exists n; repeat split; auto.
+  Qed.
+  Lemma save_key_under_pfs n : n_pfs n = true -> pfs_has_perm kzero n -> save_key n = n_perm n.
+  Proof. intros P E. apply (proj1 (save_key_pfs n)). apply E; exact P. Qed.
+
   (* restoring what was saved gives back the saved key, salt and DC *)
   Lemma restore_after_save st sv :
     stored st = Some sv -> kvalid (s_key sv) = true ->
